@@ -156,8 +156,13 @@ class NetWorld(object):
 
   on_transmit = None      # harness hook: (dpid, port, frame) -> done?
 
+  pad_min = 0       # pad shorter frames with zeros up to this (60: a NIC)
+
   def transmit(self, far, raw):
     sim = self.sim
+    if self.pad_min and len(raw) < self.pad_min:
+      raw = raw + b"\0" * (self.pad_min - len(raw))
+      sim.stats["frame_padded_on_wire"] += 1
     if self.loss and sim.ch.chance("link_loss", self.loss):
       sim.stats["link_loss"] += 1
       return
